@@ -10,8 +10,11 @@ MANIFEST = dict(
          "non-raised Return of remove_handler_for_watch/unschedule/unschedule_all/stop occurs only if (h,w) was registered again "
          "after the call's removal event, which lies between the call's begin and its Return), C05_no_callback_after_removal, "
          "C05_registry_access_under_lock / C05_callback_under_lock (LockInv), C05_unschedule_joins, C05_join_means_exited, "
-         "C05_exited_emitter_silent; re-entrant removals included. Emitter half in Return-label form (C05_emitter_full) is a "
-         "Definition: not proved that a removed, never started emitter is never started later. Tied to /repo by lock-step replay "
+         "C05_exited_emitter_silent; re-entrant removals included. Emitter half: C05_emitter_removed_joined_never_puts (after unschedule "
+         "took an emitter out of the registry and joined it - started or not - it never puts again), "
+         "C05_unscheduled_emitter_unregistered / C05_unregistered_stable / C05_retired_stable / C05_retired_silent (a removed, "
+         "never started emitter is never started later). Its Return-label form (C05_emitter_full) stays a Definition: left is the "
+         "structural ret-invariant that a non-raised Return of unschedule is preceded by its own removal and join events. Tied to /repo by lock-step replay "
          "of real BaseObserver runs; the property text is evaluated on the same runs from logical time stamps.",
     note="Trusted: Coq kernel; scheduler twins for threading/queue; interleavings sampled (exhaustive under 2 pre-emptions in thorough).",
     technique="Coq proof (inductive invariants of an LTS) + lock-step correspondence + log-based oracle",
